@@ -103,11 +103,11 @@ GENS["NilIfaceRecv"] = ["var s tr.Src", "more := func() bool { return s.More() }
 GENS["NilPtrRecvOnce"] = ["var c *tr.Counter", "more := func() bool { return c.More() }", "YIELD(7)", "if more() {", "\tYIELD(2)", "}", "RETURN"]
 # the operand of `return <expr>` is evaluated (its value is dropped): a call-free operand that panics must still panic
 GENS["ReturnOperandIndex"] = {
-    "co": ["xs := make([]Iter[int], 2)", "i := 3", "YIELD(len(xs))", "if tr.C(1) {", "\treturn xs[i]", "}", "YIELD(-1)", "RETURN"],
-    "ref": ["xs := make([]refco.Iter, 2)", "i := 3", "YIELD(len(xs))", "if tr.C(1) {", "\t_ = xs[i]", "\treturn", "}", "YIELD(-1)", "RETURN"]}
+    "co": ["xs := make([]Iter[int], 2)", "i := 3", "tr.U(2, i)", "YIELD(len(xs))", "if tr.C(1) {", "\treturn xs[i]", "}", "YIELD(-1)", "RETURN"],
+    "ref": ["xs := make([]refco.Iter, 2)", "i := 3", "tr.U(2, i)", "YIELD(len(xs))", "if tr.C(1) {", "\t_ = xs[i]", "\treturn", "}", "YIELD(-1)", "RETURN"]}
 GENS["ReturnOperandField"] = {
-    "co": ["type chain struct{ rest Iter[int] }", "var c *chain", "YIELD(1)", "if tr.C(1) {", "\treturn c.rest", "}", "YIELD(-1)", "RETURN"],
-    "ref": ["type chain struct{ rest refco.Iter }", "var c *chain", "YIELD(1)", "if tr.C(1) {", "\t_ = c.rest", "\treturn", "}", "YIELD(-1)", "RETURN"]}
+    "co": ["type chain struct{ rest Iter[int] }", "var c *chain", "if c != nil {", "\ttr.E(5)", "}", "YIELD(1)", "if tr.C(1) {", "\treturn c.rest", "}", "YIELD(-1)", "RETURN"],
+    "ref": ["type chain struct{ rest refco.Iter }", "var c *chain", "if c != nil {", "\ttr.E(5)", "}", "YIELD(1)", "if tr.C(1) {", "\t_ = c.rest", "\treturn", "}", "YIELD(-1)", "RETURN"]}
 # YieldFrom evaluates its operand once: the delegate replaces the field it was read from while delegation is under way
 GENS["FieldDelegate"] = {
     "co": ["type box struct{ cur Iter[int] }", "x := &box{}", "var mk func(base int, next Iter[int]) Iter[int]",
